@@ -40,6 +40,12 @@ def check_case(case):
     wshape = S.witness_program(sc) is not None
     cls = set()
     for ht in case.get('hts') or range(256):
+        if ht in (6, 130):
+            # a refused call in between (input that does not exist) leaves nothing behind
+            try:
+                SignatureHash(csc, tx, len(m['vin']) + 2, ht)
+            except Exception:
+                pass
         want, ok = RS.legacy(sc, m, idx, ht)
         r = libx.call('raw', RawSignatureHash, csc, tx, idx, ht)[1]
         if not (isinstance(r, tuple) and len(r) == 2):
@@ -111,7 +117,7 @@ def s_case(draw, hts=None):
     t = draw(gen.tx_model(max_in=6, max_out=6, big=False))
     nin = len(t['vin'])
     idx = draw(st.one_of(st.integers(0, nin - 1), st.integers(0, nin)))
-    c = {'tx': t, 'script': draw(s_script()).hex(), 'idx': idx, 'mutable': draw(st.booleans())}
+    c = {'tx': t, 'script': draw(s_script()).hex(), 'idx': idx, 'mutable': draw(st.sampled_from([False, True, 'mixed']))}
     if hts:
         c['hts'] = hts
     return c
